@@ -15,7 +15,7 @@ pub static DEF: PropDef = PropDef {
   cases,
   run,
   stack_mb: 64,
-  case_cpu_s: 60.0,
+  case_cpu_s: 10.0,
   crash_is_event: false,
   rule: "Schemas are generated in the core fragment (prelude scalars, literals, integer/float ranges, type choices, arrays with every occurrence form, nested and named groups, group choices, maps with literal keys, optional members, cuts, wildcard tables, .lt/.le/.gt/.ge/.eq/.ne/.size, guarded recursion; root = first type rule) and printed; per schema up to 10 JSON documents: heuristic members of the root type, single/double-edit near misses of them, and unrelated values. The expected verdict is computed by the independent evaluator R-eval (vh/src/reval.rs: type choice = union, PEG sequence match for arrays, existence of a pair-to-member assignment with occurrence bounds and cut semantics for maps, least fixed point for recursion); cases R-eval leaves open (integral float vs integer, constructs outside the fragment) are counted as unspecified. Implementation verdict: validate_json_from_str(schema, json, None). A disagreement is shrunk on schema and document before its signature (direction + construct tags of the shrunk schema + value classes of the shrunk document) is looked up. Non-trivial = schema with >= 3 construct tags for which this run observed both an accepted and a rejected document; distinct by schema text.",
   assumptions: &[
@@ -134,7 +134,7 @@ fn run(ctx: &mut Ctx, _idx: u64) {
       v,
       4000,
       &mut |cg, cv| {
-        if !cv.is_json() {
+        if !cv.is_json() || !gs::wellformed(cg) {
           return false;
         }
         let mm = vcore::model(cg, cv, true);
